@@ -48,6 +48,7 @@ class Ctx:
         self.wall = 0.0
         self.drv = None
         self.replay_files = []
+        self.drv_par = None
 
     thorough = property(lambda s: s.tier == "thorough")
 
@@ -236,17 +237,19 @@ def load_findings():
     return {"findings": []}
 
 
-VIOL_RE = re.compile(r'"((?:C08\|)?)([CD]\d\d)\|(\d+)\|([^"]*)"')
+VIOL_RE = re.compile(r'"((?:C\d\d\|)*)([CD]\d\d)\|(\d+)\|([^"]*)"')
 
 
 def parse_viol(out):
-    """-> list of (shadow_c08, prop, line, what) from the PrintT(<<"VIOL", viol>>) output."""
+    """-> list of (also_props, prop, line, what) from the PrintT(<<"VIOL", viol>>) output.
+    A tag "C09|C01|12|what" means: failure `what` of kind C01 at line 12, also attributed to C09."""
     i = out.find('"VIOL"')
     if i < 0:
         return None
     res = []
     for m in VIOL_RE.finditer(out[i:]):
-        res.append((bool(m.group(1)), m.group(2), int(m.group(3)), m.group(4)))
+        also = [x for x in m.group(1).split("|") if x]
+        res.append((also, m.group(2), int(m.group(3)), m.group(4)))
     return res
 
 
